@@ -430,3 +430,90 @@ def identity_shortcut_skipna(ctx: Ctx) -> None:
             else:
                 ctx.bad(R, f, r, f'`{norm(ident[0][0].test)}` answers True whatever skipna is: with skipna=False a container holding NaN equals itself but not its copy', key=key)
     ctx.require(n >= 7, 'identity shortcuts of equals')
+
+
+def carried_state_every_iteration(ctx: Ctx) -> None:
+    R = 'I.na-carried-state'
+    ctx.rule(R, 'the fill routines that walk blocks left to right (or right to left) carry the state of the previous block into the next (is the missing run from the edge '
+             'still unbroken? what was the last observation?): a local that is read in an iteration before it is replaced (a plain assignment whose right side does not '
+             'build on the local itself), and was initialised before the loop, is assigned on every path that reaches the next iteration — the end of the body and every '
+             '`continue`; a block skipped with `continue` before the update (an int block "cannot hold NaN") does not end the run, and cells beyond it are filled', floor=2)
+    from sfa import flow
+    prog = ctx.prog
+    k = prog.cls('TypeBlocks')
+    n = 0
+    for mname, f in sorted(k.methods.items()):
+        if not mname.startswith('_fillna'):
+            continue
+        for lp in walk_local(f.node):
+            if not isinstance(lp, ast.For):
+                continue
+            # outermost block loops only (loops nested in another loop of the function are per-row helpers)
+            if any(isinstance(o, (ast.For, ast.While)) and o is not lp and any(y is lp for y in ast.walk(o)) for o in walk_local(f.node)):
+                continue
+            stores: tp.Dict[str, tp.List[ast.Assign]] = {}
+            for a in ast.walk(lp):
+                if isinstance(a, ast.Assign) and len(a.targets) == 1 and isinstance(a.targets[0], ast.Name) and not any(y is a for s_ in lp.orelse for y in ast.walk(s_)):
+                    stores.setdefault(a.targets[0].id, []).append(a)
+            before = {a.targets[0].id for a in walk_local(f.node) if isinstance(a, ast.Assign) and isinstance(a.targets[0], ast.Name) and a.lineno < lp.lineno}
+            carried = []
+            for nm, sts in stores.items():
+                if nm not in before:
+                    continue
+                replaced = [a for a in sts if not any(isinstance(x, ast.Name) and x.id == nm for x in ast.walk(a.value))]
+                # the replacement at the first-iteration guard (`if nm is None: nm = ...`) is an initialisation, not the per-iteration update
+                from sfa.rules.blockrules import _enclosing_ifs
+                updates = [a for a in sts if not any(pol and norm(i.test) == f'{nm} is None' for i, pol in _enclosing_ifs(lp, a))]
+                first_read = min([x.lineno for x in ast.walk(lp) if isinstance(x, ast.Name) and x.id == nm and isinstance(x.ctx, ast.Load)] or [10 ** 9])
+                last_store = max(a.lineno for a in updates) if updates else -1
+                if updates and first_read < last_store and (replaced or updates):
+                    carried.append(nm)
+            if not carried:
+                continue
+
+            ndim_names = {a.targets[0].id for a in ast.walk(lp) if isinstance(a, ast.Assign) and isinstance(a.targets[0], ast.Name) and isinstance(a.value, ast.Attribute)
+                          and a.value.attr == 'ndim'}
+
+            class C(flow.Client):
+                def join(self, a, b):
+                    return a & b
+
+                def refine(self, atom, st, truth):
+                    # a block is 1-D or 2-D: `if ndim == 1: ... elif ndim == 2: ...` has no third way
+                    if isinstance(atom, ast.Compare) and len(atom.ops) == 1 and isinstance(atom.ops[0], ast.Eq) and isinstance(atom.left, ast.Name) and atom.left.id in ndim_names \
+                            and isinstance(atom.comparators[0], ast.Constant) and atom.comparators[0].value in (1, 2) and not truth:
+                        other = f'not{3 - atom.comparators[0].value}:{atom.left.id}'
+                        if other in st:
+                            return None
+                        return st | {f'not{atom.comparators[0].value}:{atom.left.id}'}
+                    return st
+
+                def on_stmt(self, s, st):
+                    tgt = None
+                    if isinstance(s, ast.Assign) and len(s.targets) == 1:
+                        tgt = s.targets[0]
+                    elif isinstance(s, ast.AugAssign):
+                        tgt = s.target
+                    if tgt is None:
+                        return st
+                    # a plain assignment, or a store into the carried array (N[...] = / N[...] += ...)
+                    nm = tgt.id if isinstance(tgt, ast.Name) else (tgt.value.id if isinstance(tgt, ast.Subscript) and isinstance(tgt.value, ast.Name) else None)
+                    if nm in carried:
+                        from sfa.rules.blockrules import _enclosing_ifs as _ei
+                        if not any(pol and norm(i.test) == f'{nm} is None' for i, pol in _ei(lp, s)):
+                            return st | {nm}
+                    return st
+            c = C()
+            ex = flow.Engine(c).run(lp.body, frozenset())
+            ends = ([('the end of the loop body', ex.fall)] if ex.fall is not None else []) + [('a `continue`', st) for st in ex.continues]
+            for nm in carried:
+                n += 1
+                key = f'TypeBlocks.{mname}:{nm}'
+                miss = [what for what, st in ends if nm not in st]
+                if miss:
+                    cont = [x for x in ast.walk(lp) if isinstance(x, ast.Continue)]
+                    ctx.bad(R, f, cont[0] if cont and 'continue' in miss[0] else lp, f'`{nm}` carries the state of the previous block but {miss[0]} is reached without assigning it: '
+                            'the next block sees the state of an earlier block (a skipped block does not end the missing run)', key=key)
+                else:
+                    ctx.ok(R, f, lp, f'`{nm}` is assigned on every path to the next iteration', key=key)
+    ctx.require(n >= 2, 'carried state in the block-walking fill routines')
